@@ -183,6 +183,10 @@ Definition table_cplx : list (string * handler) := [
                                                   c1;c2;c3;c4; s1;s2;s3;s4; na; d1;d2;d3;d4; t1;t2;t3;t4; nb; e1;e2;e3;e4; f1;f2;f3;f4; p] =>
       Some (out_res enc_mpci (mpci_sin_from (P8 a1 a2 a3 a4 a5 a6 a7 a8, P8 b1 b2 b3 b4 b5 b6 b7 b8)
                                             (Mpf c1 c2 c3 c4, Mpf s1 s2 s3 s4, na) (Mpf d1 d2 d3 d4, Mpf t1 t2 t3 t4, nb) (Mpf e1 e2 e3 e4) (Mpf f1 f2 f3 f4) p)) | _ => None end);
+  ("mpi_atan2_plan"%string, fun a => match a with [a1;a2;a3;a4;a5;a6;a7;a8;b1;b2;b3;b4;b5;b6;b7;b8] =>
+      Some (match mpi_atan2_plan (P8 a1 a2 a3 a4 a5 a6 a7 a8) (P8 b1 b2 b3 b4 b5 b6 b7 b8) with
+            | AtZero => [0; 0] | AtPi => [0; 1] | AtOrigin => [0; 3] | AtZeroPi => [0; 4]
+            | AtCorners ca cb => (0 :: 2 :: enc_pair ca ++ enc_pair cb)%list end) | _ => None end);
   ("mpi_sqrt"%string, fun a => match a with [a1;a2;a3;a4;a5;a6;a7;a8;p] => Some (out_res enc_pair (mpi_sqrt (P8 a1 a2 a3 a4 a5 a6 a7 a8) p)) | _ => None end);
   ("mpi_delta"%string, fun a => match a with [a1;a2;a3;a4;a5;a6;a7;a8;p] => Some (out_mpf (mpi_delta (P8 a1 a2 a3 a4 a5 a6 a7 a8) p)) | _ => None end);
   ("mpi_mid"%string, fun a => match a with [a1;a2;a3;a4;a5;a6;a7;a8;p] => Some (out_mpf (mpi_mid (P8 a1 a2 a3 a4 a5 a6 a7 a8) p)) | _ => None end);
